@@ -39,7 +39,23 @@ def join_region(prog, b, cls_fns):
             src = peel_conv(b.expr_operand(t["args"][1]))
             pushes.append((bb, dst, src))
     # the suffix push: source is the payload of find_suffix
-    end = [(bb, dst, src) for (bb, dst, src) in pushes if contains_call(src, lambda n: n.endswith("find_suffix"))]
+    def is_suffix_form(e):
+        """The look-up's own payload (through projections and value-preserving conversions only) — not merely a value computed from it."""
+        for _ in range(12):
+            e = peel_conv(e)
+            if e.k in ("field", "downcast", "deref", "ref"):
+                e = e.a[0]
+                continue
+            if e.k == "phi":
+                alts = [a for a in e.a[0] if not (strip_refs(a).k == "agg" and str(strip_refs(a).a[0]).endswith("Option::None"))]
+                if len(alts) == 1:
+                    e = alts[0]
+                    continue
+            break
+        return e.k == "call" and e.a[0].endswith("find_suffix")
+    end = [(bb, dst, src) for (bb, dst, src) in pushes if is_suffix_form(src)]
+    if len(end) != 1:
+        end = [(bb, dst, src) for (bb, dst, src) in pushes if contains_call(src, lambda n: n.endswith("find_suffix"))]
     if len(end) != 1:
         return None, "expected one push_str of the suffix form, found %d" % len(end)
     ebb, edst, esrc = end[0]
